@@ -338,6 +338,9 @@ class Interp:
         if op == "Ge": return za >= zb
         if op == "Eq": return za == zb
         if op == "Ne": return za != zb
+        if op in ("Div", "Rem") and getattr(self, "ctx", {}).get("unsigned_only") and not is_sym(b) and b > 0:
+            # only where the caller states that every integer in the body is unsigned (usize)
+            return z3.UDiv(za, zb) if op == "Div" else z3.URem(za, zb)
         raise Unmodelled("int op " + op)
 
     def is_float(self, v):
